@@ -112,7 +112,7 @@ type ObjectTypeField struct {
 func (self ObjectTypeField) String() string {
 	var key string
 	if !util.IsIdent(self.FieldName.ident) {
-		key = fmt.Sprintf("\"%s\"", self.FieldName.ident)
+		key = fmt.Sprintf("\"%s\"", escapeString(self.FieldName.ident))
 	} else {
 		key = self.FieldName.ident
 	}
